@@ -345,6 +345,35 @@ def jobs_C20(tier):
     return j
 
 
+def fjob(prec, family, mat, drv, P, extra=(), slices=1, variant='q'):
+    return [{'engine': 'mcfault/mcfault.c', 'variant': variant, 'prec': prec,
+             'args': ['--prop', 'C14', '--family', family, '--mat', str(mat), '--drv', str(drv), '--P', str(P), '--slice', '%d/%d' % (i, slices)] + list(extra)} for i in range(slices)]
+
+
+def jobs_C14(tier):
+    j = []
+    q = tier == 'quick'
+    for p in 'sdcz':
+        for mat in (0, 1, 2, 3):
+            for drv in (0, 1, 2):
+                for P in ((1, 2) if q else (1, 2, 3, 4)):
+                    if q and p != 'd' and (mat > 1 or P > 1):
+                        continue
+                    j += fjob(p, 'alloc', mat, drv, P)
+                    if drv != 1:
+                        j += fjob(p, 'query', mat, drv, P)
+                    if not q or (p == 'd' and mat == 0):
+                        j += fjob(p, 'alloc', mat, drv, P, extra=['--single', '1'])
+            for drv in (0, 2):
+                for P in ((1, 3) if q else (1, 2, 3, 4)):
+                    if q and (p != 'd' or mat > 1):
+                        continue
+                    j += fjob(p, 'lwork', mat, drv, P, slices=8 if q else 16, extra=['--step', '4'])
+                if not q or p == 'd':
+                    j += fjob(p, 'fill', mat, drv, 2)
+    return j
+
+
 RULE_X = ('exhaustive enumeration: every structurally nonsingular 0/1 pattern of the stated size with generic values x 6 scalings (none, rows, columns, both by powers of two, '
           'uniformly huge, uniformly tiny: they force every equed outcome) x trans {N,T,C} x storage {NC,NR} x fact {DOFACT, EQUILIBRATE, FACTORED after DOFACT, FACTORED after EQUILIBRATE} '
           'x nrhs x leading dimensions (tight and padded, ldb != ldx) x thresholds x threads, plus a graded family n=4..6 with prescribed singular values (one decade apart up to 1e13 / 1e4); '
@@ -441,6 +470,13 @@ SPECS = {
                             'writer self-check at start-up: the sample files of /repo/EXAMPLE are reproduced byte for byte and read identically'],
             'ignore_sigs': [r'trim', r'title72', r'titleblank', r'titleparen', r'double-rounding'],
             'deadline': {'quick': 300, 'thorough': 1800}},
+    'C14': {'jobs': jobs_C14, 'level': 'fault_enumeration',
+            'rule': 'for each driver call of a menu (4 matrices x {direct pipeline, p?gssv, p?gssvx} x thread counts x precisions): the fault-free call is measured (K allocation requests), then for EVERY k = 1..K+1 request k and all later ones fail '
+                    '(additionally: only request k fails); every user-workspace size from 4 bytes to 1.25 x the queried estimate in 4-byte steps with 256-byte red zones; lwork = -1; every too-small value 1..60 of the U / L-subscript size estimates; '
+                    'each case in its own forked child with stderr captured; outcome classes: returned(info) / abort path with diagnostic / sanitizer report / fault / hang; distinct_nontrivial counts distinct (case, outcome) pairs',
+            'assumptions': ['allocation failure is injected at the renamed malloc/calloc level of the library (every request of the library is visible)', 'threads run inline; the user-workspace modes under real interleavings are jobs K12 of Engine S',
+                            'a success (info=0) after a failed request that the call really issued is counted as a violation; the abort path must print a diagnostic'],
+            'deadline': {'quick': 600, 'thorough': 3 * 3600}},
     'C09': {'jobs': jobs_C09, 'level': 'exploration', 'rule': RULE_SEQ,
             'assumptions': ['checker wellformed() implements the statement literally; n <= 12'],
             'deadline': {'quick': 600, 'thorough': 3 * 3600}},
